@@ -282,12 +282,19 @@ def gen_program(rng, n_meas=None, n_ops=None, rational_only=False, allow_pairs=T
         kinds.append("der")
         made += 1
     # correlations between measurements with non-zero uncertainty (explicit measurements only)
+    # the matrix is kept diagonally dominant (hence positive semi-definite: a jointly non-physical assignment makes the
+    # propagated variance negative, which the library rejects)
     corr = []
+    rowsum = {}
     ms = [k for k, s in enumerate(steps[:n_meas]) if s[2] > 0]
     for a in range(len(ms)):
         for b in range(a + 1, len(ms)):
             if rng.random() < 0.5:
-                corr.append([ms[a], ms[b], rng.choice([0.5, -0.5, 0.25, -0.75, 1.0, -1.0, 0.125, 0.875])])
+                r = rng.choice([0.5, -0.5, 0.25, -0.75, 1.0, -1.0, 0.125, 0.875])
+                if rowsum.get(ms[a], 0) + abs(r) <= 1 and rowsum.get(ms[b], 0) + abs(r) <= 1:
+                    corr.append([ms[a], ms[b], r])
+                    rowsum[ms[a]] = rowsum.get(ms[a], 0) + abs(r)
+                    rowsum[ms[b]] = rowsum.get(ms[b], 0) + abs(r)
     return steps, corr
 
 
